@@ -136,16 +136,21 @@ func c11Extras3(c *Ctx) {
 			if !ok {
 				return false
 			}
-			return strings.Contains(Expr(lk.X), "missingIssuerNode") && strings.Contains(Expr(lk.Index), "RawSubject")
+			return strings.Contains(Expr(lk.X), "missingIssuerNode") && strings.Contains(strings.ToLower(Expr(lk.Index)), "rawsubject")
 		}
 		n := 0
-		for _, b := range fn.Blocks {
-			for _, in := range b.Instrs {
-				if isFixupLookup(in) {
-					n++
+		for _, f := range w.familyOf(fn) {
+			for _, b := range f.Blocks {
+				for _, in := range b.Instrs {
+					if isFixupLookup(in) {
+						n++
+					}
 				}
 			}
 		}
+		// the fix-up may live in a helper only AddCert calls: the call then starts it
+		lookupHere := isFixupLookup
+		isFixupLookup = func(in ssa.Instruction) bool { return lookupHere(in) || w.callsInto(in, lookupHere) }
 		c.Sites++
 		c.Check(n == 1, "R-CUT", "verifier.Graph.AddCert", "the dangling-edge lookup g.missingIssuerNode[string(c.RawSubject)] found", w.Pos(fn.Pos()), fmt.Sprint(n))
 		c.Cut(CutSpec{Rule: "R-CUT", Fn: fn, Label: "returns before the dangling-edge fix-up only if the certificate is already in the graph or its node already existed (every new node adopts the edges it signed, whatever its basic constraints)",
